@@ -29,6 +29,26 @@ SIGS = {
 }
 
 
+def bind_arange(call):
+    """{start, stop, step} of np.arange in any of its spellings (arange(stop) / (start, stop[, step]) / keywords); None if not an arange call."""
+    if call[0] != "call" or call[1] != G("numpy.arange") or any(a[0] == "star" for a in call[2]):
+        return None
+    pos, kw = list(call[2]), dict(call[3])
+    kw.pop("dtype", None)
+    if "**" in kw or len(pos) > 3:
+        return None
+    out = {"start": ("const", 0), "step": ("const", 1)}
+    if len(pos) == 1 and "stop" not in kw:
+        out["stop"] = pos[0]
+    else:
+        for n, a in zip(("start", "stop", "step"), pos):
+            out[n] = a
+    for n in ("start", "stop", "step"):
+        if n in kw:
+            out[n] = kw[n]
+    return out if "stop" in out else None
+
+
 def bind(call, names=None):
     """{formal: term} for a call term of a known external callable; None if it cannot be bound."""
     if call[0] != "call":
